@@ -318,3 +318,9 @@ mod tests {
         );
     }
 }
+
+#[cfg(feature = "verif")]
+pub mod verif_hooks {
+    pub use super::state::State;
+    pub use super::tokenize::into_tokens;
+}
